@@ -115,7 +115,64 @@ def model(ex, c, args, guard, site):
         raise Inconclusive('array nth with symbolic index over non-literal elements')
     return None
 
+class DecSuf:
+    """&str that is the suffix, from byte `start`, of the decimal rendering of integer v (`v.to_string()[start..]`)"""
+    is_strlike = True
+    __slots__ = ('v', 'start', 'len')
+    def __init__(s, v, start, ln): s.v = v; s.start = start; s.len = ln
+
+def dec_of(st):
+    """the integer whose to_string() this String term is, or None"""
+    if isinstance(st, StrT) and len(st.alts) == 1 and z3.is_true(st.alts[0][0]) and st.alts[0][1][0] == 'fmt' and st.alts[0][1][1] == b'<int::to_string>':
+        return st.alts[0][1][2][0]
+    return None
+
+def dec_len(v):
+    """number of bytes of v.to_string(): one per decimal digit of |v|, plus the sign"""
+    def n(x): return len(str(x))
+    t = 1 + z3.If(v.t < 0, 1, 0)
+    for k in range(1, 20):
+        if max(abs(v.lo), abs(v.hi)) >= 10 ** k: t = t + z3.If(z3.Or(v.t >= 10 ** k, v.t <= -(10 ** k)), 1, 0)
+    cands = [n(v.lo), n(v.hi)] + ([1] if v.lo <= 0 <= v.hi else [])
+    return IV(z3.simplify(t), 'usize', min(cands), max(cands))
+
+def dec_model(ex, c, args, guard, site):
+    """String::len / Index<RangeFrom> / parse::<int> on the decimal rendering of an integer (the `yy` digit surgery)"""
+    from .sym import fdiv
+    from .models import en2
+    cs = ex.strip_generics(c); ctx = ex.ctx
+    if cs == 'String::len':
+        v = dec_of(ex.deref(args[0]))
+        if v is None: return None
+        ctx.models_used.add('String::len of int::to_string -> digit count + sign'); return dec_len(v), T
+    if re.match(r'^<String as Index<(?:std::ops::)?RangeFrom<usize>>>::index$', cs):
+        v = dec_of(ex.deref(args[0]))
+        if v is None: return None
+        ln = dec_len(v); a = ex.deref(args[1]).f[0]
+        okc = zand(a.t >= 0, a.t <= ln.t)            # all bytes ASCII: no char-boundary panic
+        if not (a.lo >= 0 and a.hi <= ln.lo): ctx.panics.append((zand(guard, znot(okc)), site, 'str slice start out of range'))
+        ctx.models_used.add('int::to_string()[a..] -> decimal suffix'); return DecSuf(v, a, ln), okc
+    m = re.match(r'^core::str::<impl str>::parse::<(i32|i64|u32|u64)>$', c)
+    if m:
+        s = ex.deref(args[0])
+        if not isinstance(s, DecSuf): return None
+        k = z3.simplify(s.len.t - s.start.t)
+        if not z3.is_int_value(k): raise Inconclusive('parse of a decimal suffix of symbolic length')
+        k = k.as_long(); v = s.v; ty = m.group(1)
+        if k == 0: return en2(mk_bool(True), [mk_int(0, ty)], [Opaque('ParseIntError')], 'Result'), T
+        neg = z3.If(v.t < 0, 1, 0)
+        av = IV(z3.If(v.t < 0, -v.t, v.t), 'i128', 0 if v.lo <= 0 <= v.hi else min(abs(v.lo), abs(v.hi)), max(abs(v.lo), abs(v.hi)))
+        q, r, _, _ = fdiv(ctx, av, 10 ** k)
+        digits_only = s.start.t >= neg               # otherwise the suffix is the whole string "-ddd"
+        val = z3.If(digits_only, r, v.t)
+        lo_t, hi_t = {'i32': (-2**31, 2**31 - 1), 'i64': (-2**63, 2**63 - 1), 'u32': (0, 2**32 - 1), 'u64': (0, 2**64 - 1)}[ty]
+        notok = bv_of(z3.Or(val < lo_t, val > hi_t))
+        ctx.models_used.add('parse::<%s> of a decimal suffix -> |v| mod 10^k (whole string: v)' % ty)
+        return en2(notok, [IV(val, ty, max(lo_t, min(0, v.lo)), min(hi_t, max(10 ** k - 1, v.hi)))], [Opaque('ParseIntError')], 'Result'), T
+    return None
+
 def exec_hook(ex, ob):
     if ob.opts.get('fmt_terms'):
         ex.extra_models.insert(0, model)
+        ex.extra_models.insert(0, dec_model)
 oblig.EXEC_HOOKS.append(exec_hook)
